@@ -110,6 +110,13 @@ class StagedSuite(Suite):
                 # peptides, not all samples of the experiment
                 ncols = nexp * max(1, ns)
                 c["min_samples"] = rng.choice([2, 3, 10, ncols, max(2, ncols - 1), max(2, ncols - 2)])
+            if rng.random() < 0.08:
+                # intensities in very small or very large units (exact powers of two): a missing value is exactly 0, nothing else
+                k2 = 2.0 ** rng.choice([-40, -60, 40])
+                for pr in c["precs"]:
+                    if pr["int"] not in ("nan", "0.0"):
+                        pr["int"] = repr(float(pr["int"]) * k2)
+                    pr["silac"] = [repr(float(v) * k2) for v in pr["silac"]]
             yield c
 
     def shrink(self, case):
@@ -203,8 +210,10 @@ class StagedSuite(Suite):
         g = None if case["graph"] is None else clist(cpair(cnat(i), cnat(j)) for i, j in case["graph"])
         cin = cpair(clist(rows), clist(cstr(n) for n in case["names"]), cQ(Fraction(case["cut"])), cnat(case["ns"]), cnat(case["minr"]),
                     cbool(case["stab"]), copt(g), cnat(case["min_samples"]))
-        if "raise" in out:
-            # no exception is part of the model: an exception is a disagreement by construction
+        nonfinite = "raise" not in out and any(not math.isfinite(x) for x in list(out.get("medians", [])) + [v for _, v in out.get("logs", [])]
+                                                + list(out.get("final", [])) + [x for _, v in out.get("matrix", []) for x in v])
+        if "raise" in out or nonfinite:
+            # no exception (and no NaN / inf in any stage) is part of the model: a disagreement by construction
             return cpair(cin, cpair("[]", cQ(-1), "[]", "[]", "[]", "[]"), "false")
         mat = clist(cpair(cpair(cstr(k[0]), cZ(k[1])), clist(cQ(fq(x)) for x in v)) for k, v in out.get("matrix", []))
         keys = out.get("ratio_keys", [])
@@ -249,6 +258,8 @@ class StagedSuite(Suite):
         final = out["final"]
         if not all(math.isfinite(x) and x >= 0 for x in final):
             return "lfq-non-finite-or-negative"
+        if any(not math.isfinite(x) for x in list(out.get("medians", [])) + [v for _, v in out.get("logs", [])]):
+            return "lfq-non-finite-ratio"
         logs = {tuple(k): v for k, v in out.get("logs", [])}
         if case["ns"] == 0:
             # the ratio edges are exactly the sample pairs with enough own and shared peptides that the FastLFQ graph links
